@@ -22,6 +22,7 @@ struct Cg {
   int nprocs = 0;
   bool zeroLine = false;   // literal "0" line in cgroup.procs (task of a foreign pid namespace)
   int pref = 0;            // 0 none, 1 prefer, 2 avoid, 3 both
+  int lingerAll = 0;       // every process survives this many SIGKILLs (kill(2) succeeds, the process stays: e.g. stuck in D state)
   int pidsMode = 0;        // world::setPidsMode
   bool userXattr = false;  // user.oomd_* instead of trusted.oomd_*
   int preferNs = -1, avoidNs = -1;  // per-mark namespace override: 0 trusted, 1 user, -1 follow userXattr
@@ -142,6 +143,7 @@ struct Builder {
       if (c.outcome == 1) outcome = world::K_ESRCH;
       if (c.outcome == 2 && i == 0) outcome = world::K_EPERM;
       if (c.outcome == 3 && i == 0) linger = 1;
+      if (c.lingerAll > 0) linger = c.lingerAll;
       world::addProc(pid, c.rel, outcome, linger);
       (*home)[pid] = c.rel;
     }
